@@ -290,8 +290,10 @@ def readBlockLen (ignored : Bool) : Nat → DeM (Option Nat)
       else do
         -- `wrapping_neg` of the u64 bit pattern: i64::MIN ↦ 2^63
         let res := (-len).toNat
-        let _ ← readVarint .u64
-        pure (if res = 0 then none else some res)
+        -- the byte size is not used, but it must not be negative (repair of D28)
+        let sz ← readVarint .i64
+        if sz < 0 then DeM.fail .custom
+        else pure (if res = 0 then none else some res)
     else pure (if len = 0 then none else some len.toNat)
 
 structure BlockState where
